@@ -50,6 +50,9 @@ RULE = ('random DAG workbook files (C01 generator: 2-14 cells on one or two shee
         'number, error value, blank, empty text, the formula text) x tolerance {None, 0, 1/1024, 1/2, 2} x outputs '
         '{all, one leaf, one root, random list, single address} x verify_tree on/off.  Deterministic core: three fixed '
         'workbooks x every formula cell x every perturbation kind x every tolerance x outputs {all, root} x tree.  '
+        'Magnitudes: stored numbers 1e-12..1e-7, around 1, 1e6..1e15 and 0 (17 values), each perturbed just inside / '
+        'outside every branch of the closeness rule (relative 0.9e-5 / 1.1e-5, zero vs 0.9e-8 / 1.1e-8, 0.9 / 1.1 of an '
+        'explicit tolerance, one ulp at tolerance 0, x1.5, to zero) for every tolerance setting.  '
         'Oracle-only stream: 6 workbooks with precedents behind A:A / 1:1 / A:B references and 18-36 workbooks with a '
         'broken-build formula (offending reference first / last / in the middle, directly checked or behind another '
         'output), each formula cell behind them perturbed (number, text, error) or made unevaluable.  '
@@ -67,14 +70,18 @@ ASSUMPTIONS = [
     'cells that raise are not members of a range node (the order in which _process_gen_graph evaluates several new '
     'ranges is not modelled; it is only observable when one of them raises)',
     'a stored text that spells an error code is not generated (pycel holds error values as strings)',
-    'numeric perturbations stay away from the closeness boundary by a factor 2 (float vs exact arithmetic); '
+    'reading of "altered by more than the tolerance" for numbers (completeness oracle `rule_close`): the documented '
+    'rule of close_enough - with a tolerance t, |a-b| > (1+1e-5)*t; with the default, relative 1e-5 of the larger '
+    'magnitude when both values are non-zero and absolute 1e-8 when one is zero; a change of type is always an alteration',
+    'numeric perturbations stay away from the closeness boundary by 10% or more (float vs exact arithmetic); '
     'non-integral perturbations are not applied to cells with & or = dependants',
     'the per-class address lists are compared as multisets; exception messages/keys are not compared',
 ]
 TRUSTED = ['modelled, not verified: openpyxl reading the file (data_only values), networkx, the formula evaluator of '
            'pycel on the generated language (compared through the recomputed values of the report)']
 REQUIRED_BUCKETS = ['consistent', 'consistent:raising', 'pert:far', 'pert:near', 'pert:text', 'pert:logical',
-                    'pert:lognum', 'pert:error', 'pert:blank', 'fixed', 'oo:unbounded', 'oo:broken-build']
+                    'pert:lognum', 'pert:error', 'pert:blank', 'fixed', 'oo:unbounded', 'oo:broken-build',
+                    'mag:tiny', 'mag:unit', 'mag:large', 'mag:zero']
 EXHAUSTIVE = False
 EXPLANATION = ('theorems: generic model of validate_calcs over every workbook DAG / value type / formula semantics '
                'with exceptions; correspondence: real validate_calcs on .xlsx files vs compiled model, plus '
@@ -332,11 +339,37 @@ def same(impl_out, model_out):
     return True
 
 
+def rule_close(a, b, tol):
+    """THE reading of "within the tolerance" used by the completeness oracle: the documented rule of close_enough
+    (rel=0.00001): with a tolerance t, |a-b| <= (1+rel)*t; with the default (None), relative 1e-5 of the larger
+    magnitude when both values are non-zero, absolute 1e-8 when one of them is zero.  Exact arithmetic."""
+    a, b = Fraction(a), Fraction(b)
+    if tol is not None:
+        return abs(a - b) <= (1 + Fraction(1, 100000)) * Fraction(tol)
+    if a != 0 and b != 0:
+        return abs(a - b) <= Fraction(1, 100000) * max(abs(a), abs(b))
+    return abs(a - b) <= Fraction(1, 10 ** 8)
+
+
+def beyond(case):
+    """is the perturbation of the case an alteration beyond the tolerance (so that the property demands a report)"""
+    pert = case.get('pert')
+    if not pert:
+        return False
+    if pert[1] in FAR:
+        return True
+    if pert[1].startswith('mag'):
+        old = stored_of(case['nodes'])[case['nodes'][pert[0]][1]]
+        new = core.dec(pert[2])
+        return not rule_close(new, old, case['tol'])
+    return False
+
+
 def governed(case):
     """the property fixes the report of a consistent file and of an alteration beyond the tolerance; what happens for
     an alteration within the tolerance or to "no stored result" is the code's choice (model follows the code)"""
     pert = case.get('pert')
-    return pert is None or pert[1] in FAR or bool(case.get('oo'))
+    return pert is None or beyond(case) or bool(case.get('oo'))
 
 
 # ---------------------------------------------------------------------------------------------------------------
@@ -412,7 +445,7 @@ def oracles(results):
         if pert:
             c, kind = pert[0], pert[1]
             evaluable = nodes[c][0] == 'F' and not any(nodes[j][0] == 'X' for j in clo[c])
-            if kind in FAR and c in reach and evaluable:
+            if beyond(case) and c in reach and evaluable:
                 want = core.enc(stored_of(nodes)[nodes[c][1]])
                 got = ms.get(c)
                 if got is None:
@@ -475,6 +508,8 @@ def nontrivial(case):
 def bucket(case):
     if case.get('oo'):
         return 'oo:' + case['oo']
+    if case.get('mag'):
+        return 'mag:' + case['mag']
     if case.get('fixed'):
         return 'fixed'
     pert = case.get('pert')
@@ -618,6 +653,7 @@ def cases(tier, rng):
     thorough = tier == 'thorough'
     yield from fixed_cases(thorough)
     yield from oo_cases(thorough, rng)
+    yield from mag_cases(thorough, rng)
     n_wb = 150 if thorough else 22
     for k in range(n_wb):
         nodes = W.gen_workbook(rng, free_ranges=False)
@@ -644,6 +680,61 @@ def cases(tier, rng):
                     outs = rng.choice(choices)
                     tree = 1 if rng.random() < 0.75 else 0
                     yield {'nodes': nodes, 'outs': outs, 'tree': tree, 'tol': tol, 'pert': [c, kind, v]}
+
+
+# ---------------------------------------------------------------------------------------------------------------
+# magnitudes: stored / recomputed numbers from 1e-12 to 1e15 and perturbations just inside / outside each branch of the
+# closeness rule at each magnitude, for every tolerance setting (model-carried: the Lean closeVal decides exactly)
+
+MAGS = {'tiny': [1e-12, 3e-10, 6e-9, -9e-9, 5e-8, 1e-7],
+        'unit': [1.0, 2.5, -7.25, 0.3],
+        'large': [1e6, -123456789.0, 4.5e9, 1e12, 1e15],
+        'zero': [0]}
+
+
+def mag_workbook(x):
+    t = W._tok
+    # B1 == A1 ; B2 == A1+A2 (x+0: exact) ; C1 == B1 (dependant of B1 without arithmetic)
+    return [['I', 'Sheet1!A1', t(x)], ['I', 'Sheet1!A2', t(0)], ['F', 'Sheet1!B1', 'ref', [0]],
+            ['F', 'Sheet1!B2', 'add', [0, 1]], ['F', 'Sheet1!C1', 'ref', [2]]]
+
+
+def mag_perts(x, tol):
+    """(kind, new stored value) around the closeness boundary for the stored number x"""
+    import math
+    x = float(x)
+    out = []
+    if tol is None:
+        if x != 0:
+            for k, f in (('in', 0.9e-5), ('out', 1.1e-5)):
+                out += [(f'mag-rel-{k}', x * (1 + f)), (f'mag-rel-{k}', x * (1 - f))]
+            out += [('mag-far', x * 1.5), ('mag-to-zero', 0.0)]
+        else:
+            for k, d in (('in', 0.9e-8), ('out', 1.1e-8)):
+                out += [(f'mag-abs-{k}', d), (f'mag-abs-{k}', -d)]
+            out += [('mag-tiny', 6e-9), ('mag-tiny', 1e-12), ('mag-far', 5e-8)]
+    else:
+        t = float(Fraction(tol))
+        if t == 0:
+            out += [('mag-ulp', math.nextafter(x, math.inf)), ('mag-rel-out', x * (1 + 1.1e-5) if x else 1.1e-8)]
+        else:
+            for k, f in (('in', 0.9), ('out', 1.1)):
+                out += [(f'mag-tol-{k}', x + f * t), (f'mag-tol-{k}', x - f * t)]
+            out += [('mag-rel-out', x * (1 + 1.1e-5) if x else 1.1e-8)]
+    return [(k, v) for k, v in out if v != x]
+
+
+def mag_cases(thorough, rng):
+    for mag, xs in MAGS.items():
+        for x in xs:
+            nodes = mag_workbook(x)
+            for tol in TOLS:
+                cells = [2, 3, 4] if thorough else [rng.choice([2, 3]), 4][:2 if tol is None else 1]
+                yield {'nodes': nodes, 'outs': 'all', 'tree': 1, 'tol': tol, 'pert': None, 'mag': mag}
+                for c in cells:
+                    for kind, v in mag_perts(x, tol):
+                        yield {'nodes': nodes, 'outs': 'all' if c != 4 else [4], 'tree': 1, 'tol': tol,
+                               'pert': [c, kind, core.enc(v)], 'mag': mag}
 
 
 # ---------------------------------------------------------------------------------------------------------------
